@@ -217,3 +217,36 @@ register("C17", title="session lifecycle", engine="irc-history-engine", pkg="./i
               "(c) after-the-end monitor on the shared engine. evaluations = lookups + sweep assertions + entries",
          floor={"quick": 5000, "thorough": 100000},
          technique="state-machine monitors: lookup oracle per applied prefix, sweep oracle, after-end invariants")
+
+
+# ---------------------------------------------------------------------------
+# C08: output stream under a scheduler-controlled drop-in for sync
+
+def c08_overlay(vc, scr):
+    """Rewrite the *current* outputstream.go so that its sync import is the cooperative scheduler."""
+    src = os.path.join(vc.REPO, "internal/outputstream/outputstream.go")
+    text = open(src).read()
+    needle = '\t"sync"\n'
+    if text.count(needle) != 1:
+        raise vc.Broken("outputstream.go: expected exactly one import line \"sync\", found %d" % text.count(needle))
+    text = text.replace(needle, '\tsync "github.com/robustirc/robustirc/internal/verifsync"\n')
+    out = scr.path("outputstream_shim.go")
+    with open(out, "w") as f:
+        f.write(text)
+    return {src: out}
+
+
+register("C08", title="output stream next-message lookup", pkg="./internal/outputstream",
+         parts=[{"name": "outputstream_shim", "test": "^TestVerifC08$", "overlay_hook": c08_overlay,
+                 "children": {"quick": 16, "thorough": 16}, "cases": {"quick": 25, "thorough": 250}},
+                {"name": "outputstream_real", "test": "^TestVerifC08Real$", "race": True,
+                 "children": {"quick": 4, "thorough": 16}, "cases": {"quick": 3, "thorough": 20}}],
+         timeout={"quick": 400, "thorough": 2400}, level="exploration",
+         rule="layer 1: seeded bounded programs (mutator adding ids in increasing order / deleting the oldest or a missing id, 1-2 GetNext readers "
+              "following the stream, Get, InterruptGetNext, cancel) run against the real outputstream.go compiled against a cooperative scheduler "
+              "(every Lock/RLock/Unlock/RUnlock/Wait/Broadcast is a scheduling point; random walk and PCT strategies); each GetNext result is checked "
+              "interval-wise against a sorted-set model, blocking is decided exactly at quiescence. evaluations = schedules executed; distinct = "
+              "distinct (program, interleaving fingerprint). layer 2: real goroutines under -race plus long sequential programs against the model",
+         floor={"quick": 2000, "thorough": 50000},
+         technique="controlled-schedule exploration of the real code (sync shim) with an interval-wise sorted-set oracle; race detector on real threads",
+         level_text="randomised (not exhaustive) exploration of the interleavings of lock-protected steps; every reported schedule is replayable")
